@@ -725,3 +725,124 @@ Proof.
   exists q, r. rewrite Hvq, Hvr. pose proof (euclid_spec (sval w a) (sval w b) Hnz) as [E1 E2].
   repeat (split; [assumption|]). exact E2.
 Qed.
+
+(* ---------- div_floor / div_ceil ---------- *)
+
+Lemma floor_from_trunc SA SB : SB <> 0 ->
+  SA / SB = if (Z.rem SA SB =? 0) || Bool.eqb (SA <? 0) (SB <? 0)
+            then Z.quot SA SB else Z.quot SA SB - 1.
+Proof.
+  intros Hnz. destruct (quot_rem_facts SA SB Hnz) as (E & Hab & Hpos & Hneg).
+  set (q := Z.quot SA SB) in *. set (r := Z.rem SA SB) in *. symmetry.
+  destruct (Z.eqb_spec r 0) as [Hr|Hr]; cbn [orb].
+  - apply (Z.div_unique SA SB q 0); lia.
+  - destruct (Z.ltb_spec SA 0); destruct (Z.ltb_spec SB 0); cbn [Bool.eqb].
+    + apply (Z.div_unique SA SB q r); lia.
+    + apply (Z.div_unique SA SB (q - 1) (r + SB)); lia.
+    + apply (Z.div_unique SA SB (q - 1) (r + SB)); lia.
+    + apply (Z.div_unique SA SB q r); lia.
+Qed.
+
+Lemma ceil_from_trunc SA SB : SB <> 0 ->
+  - ((- SA) / SB) = if (Z.rem SA SB =? 0) || negb (Bool.eqb (SA <? 0) (SB <? 0))
+                    then Z.quot SA SB else Z.quot SA SB + 1.
+Proof.
+  intros Hnz. destruct (quot_rem_facts SA SB Hnz) as (E & Hab & Hpos & Hneg).
+  set (q := Z.quot SA SB) in *. set (r := Z.rem SA SB) in *.
+  destruct (Z.eqb_spec r 0) as [Hr|Hr]; cbn [orb].
+  - rewrite <- (Z.div_unique (- SA) SB (- q) 0); lia.
+  - destruct (Z.ltb_spec SA 0); destruct (Z.ltb_spec SB 0); cbn [Bool.eqb negb].
+    + rewrite <- (Z.div_unique (- SA) SB (- (q + 1)) (SB - r)); lia.
+    + rewrite <- (Z.div_unique (- SA) SB (- q) (- r)); lia.
+    + rewrite <- (Z.div_unique (- SA) SB (- q) (- r)); lia.
+    + rewrite <- (Z.div_unique (- SA) SB (- (q + 1)) (SB - r)); lia.
+Qed.
+
+(* -((-SA)/SB) is the ceiling: the least integer c with c * SB >= SA (SB > 0) resp. <= SA (SB < 0) *)
+Lemma ceil_char SA SB : SB <> 0 ->
+  let c := - ((- SA) / SB) in
+  (0 < SB -> (c - 1) * SB < SA <= c * SB) /\ (SB < 0 -> c * SB <= SA < (c - 1) * SB).
+Proof.
+  intros Hnz c. unfold c. pose proof (Z.div_mod (- SA) SB Hnz) as E. split; intros Hs.
+  - pose proof (Z.mod_pos_bound (- SA) SB Hs). nia.
+  - pose proof (Z.mod_neg_bound (- SA) SB Hs). nia.
+Qed.
+
+(* div_floor: the floor quotient; the `- 1` cannot overflow; MIN / -1 is NOT trapped: the model
+   returns MIN in both build modes (the remainder is 0, so no adjustment is made) *)
+Theorem I_div_floor_ok dbg w n a b :
+  0 < w -> U_div_rem_spec w -> (0 < n)%nat -> wf w n a -> wf w n b ->
+  (sval w b = 0 -> I_div_floor dbg w a b = Panic) /\
+  (min_neg_one w n a b -> SRet w n (I_div_floor dbg w a b) (- (Mod w n / 2))) /\
+  (sval w b <> 0 -> ~ min_neg_one w n a b ->
+     SRet w n (I_div_floor dbg w a b) (sval w a / sval w b)).
+Proof.
+  intros Hw HS Hn Ha Hb. unfold I_div_floor.
+  split; [intros Hz; rewrite (zero_test_true w n b) by auto; reflexivity|].
+  assert (Hcore : sval w b <> 0 ->
+    exists q, I_div_floor dbg w a b =
+      (if (Z.rem (sval w a) (sval w b) =? 0) || Bool.eqb (sval w a <? 0) (sval w b <? 0)
+       then Ret q else I_sub dbg w q (ONE n)) /\ wf w n q /\
+      (min_neg_one w n a b -> sval w q = - (Mod w n / 2)) /\
+      (~ min_neg_one w n a b -> sval w q = Z.quot (sval w a) (sval w b))).
+  { intros Hnz. unfold I_div_floor. rewrite (zero_test_false w n b) by auto.
+    destruct (I_div_rem_unchecked_core dbg w n a b Hw HS Hn Ha Hb Hnz)
+      as (q & r & -> & Hq & Hr & Hrv & Hm & Hok).
+    cbn [obind]. rewrite (is_negative_spec w n a), (is_negative_spec w n b) by auto.
+    rewrite (is_zero_sval w n r) by auto. rewrite Hrv, (wf_length _ _ _ Ha).
+    exists q. auto. }
+  fold (I_div_floor dbg w a b). split.
+  - intros Hm. destruct (Hcore (mno_nz _ _ _ _ Hm)) as (q & -> & Hq & Hqm & _).
+    destruct Hm as [E1 E2]. rewrite E2, rem_neg_one, Z.eqb_refl. cbn [orb].
+    exists q. split; [reflexivity|]. split; [exact Hq|]. apply Hqm. split; assumption.
+  - intros Hnz Hno. destruct (Hcore Hnz) as (q & -> & Hq & _ & Hqv). specialize (Hqv Hno).
+    rewrite floor_from_trunc by exact Hnz. rewrite <- Hqv.
+    destruct (Z.eqb_spec (Z.rem (sval w a) (sval w b)) 0) as [Hr0|Hr0]; cbn [orb].
+    + exists q. auto.
+    + destruct (Bool.eqb _ _); [exists q; auto|].
+      pose proof (sval_range w n a Hw Hn Ha) as RA. pose proof (sval_range w n b Hw Hn Hb) as RB.
+      destruct (quot_small (sval w a) (sval w b) (Mod w n / 2) Hnz RA RB Hr0) as [H2 Hq2].
+      rewrite <- Hqv in Hq2.
+      pose proof (sval_ONE w n Hw Hn (four_le_Mod w n _ Hw Hn eq_refl H2)) as S1.
+      replace (sval w q - 1) with (sval w q - sval w (ONE n)) by (rewrite S1; reflexivity).
+      apply I_sub_ok; auto using wf_ONE. rewrite S1. lia.
+Qed.
+
+(* div_ceil: the ceiling quotient -((-SA)/SB); the `+ 1` cannot overflow; MIN / -1 as for div_floor *)
+Theorem I_div_ceil_ok dbg w n a b :
+  0 < w -> U_div_rem_spec w -> (0 < n)%nat -> wf w n a -> wf w n b ->
+  (sval w b = 0 -> I_div_ceil dbg w a b = Panic) /\
+  (min_neg_one w n a b -> SRet w n (I_div_ceil dbg w a b) (- (Mod w n / 2))) /\
+  (sval w b <> 0 -> ~ min_neg_one w n a b ->
+     SRet w n (I_div_ceil dbg w a b) (- ((- sval w a) / sval w b))).
+Proof.
+  intros Hw HS Hn Ha Hb. unfold I_div_ceil.
+  split; [intros Hz; rewrite (zero_test_true w n b) by auto; reflexivity|].
+  assert (Hcore : sval w b <> 0 ->
+    exists q, I_div_ceil dbg w a b =
+      (if (Z.rem (sval w a) (sval w b) =? 0) || negb (Bool.eqb (sval w a <? 0) (sval w b <? 0))
+       then Ret q else I_add dbg w q (ONE n)) /\ wf w n q /\
+      (min_neg_one w n a b -> sval w q = - (Mod w n / 2)) /\
+      (~ min_neg_one w n a b -> sval w q = Z.quot (sval w a) (sval w b))).
+  { intros Hnz. unfold I_div_ceil. rewrite (zero_test_false w n b) by auto.
+    destruct (I_div_rem_unchecked_core dbg w n a b Hw HS Hn Ha Hb Hnz)
+      as (q & r & -> & Hq & Hr & Hrv & Hm & Hok).
+    cbn [obind]. rewrite (is_negative_spec w n a), (is_negative_spec w n b) by auto.
+    rewrite (is_zero_sval w n r) by auto. rewrite Hrv, (wf_length _ _ _ Ha).
+    exists q. auto. }
+  fold (I_div_ceil dbg w a b). split.
+  - intros Hm. destruct (Hcore (mno_nz _ _ _ _ Hm)) as (q & -> & Hq & Hqm & _).
+    destruct Hm as [E1 E2]. rewrite E2, rem_neg_one, Z.eqb_refl. cbn [orb].
+    exists q. split; [reflexivity|]. split; [exact Hq|]. apply Hqm. split; assumption.
+  - intros Hnz Hno. destruct (Hcore Hnz) as (q & -> & Hq & _ & Hqv). specialize (Hqv Hno).
+    rewrite ceil_from_trunc by exact Hnz. rewrite <- Hqv.
+    destruct (Z.eqb_spec (Z.rem (sval w a) (sval w b)) 0) as [Hr0|Hr0]; cbn [orb].
+    + exists q. auto.
+    + destruct (negb _); [exists q; auto|].
+      pose proof (sval_range w n a Hw Hn Ha) as RA. pose proof (sval_range w n b Hw Hn Hb) as RB.
+      destruct (quot_small (sval w a) (sval w b) (Mod w n / 2) Hnz RA RB Hr0) as [H2 Hq2].
+      rewrite <- Hqv in Hq2.
+      pose proof (sval_ONE w n Hw Hn (four_le_Mod w n _ Hw Hn eq_refl H2)) as S1.
+      replace (sval w q + 1) with (sval w q + sval w (ONE n)) by (rewrite S1; reflexivity).
+      apply I_add_ok; auto using wf_ONE. rewrite S1. lia.
+Qed.
